@@ -43,6 +43,54 @@ ENGINES = [
  {"name": "E1", "path": "harness/src/sim.rs, harness/src/e1.rs", "serves_properties": ["C01","C02","C03","C04","C05","C12","C13","C16","C20"], "kind_free_text": "cluster simulator over real Chitchat instances (virtual clock, datagrams as bytes, independent decoder) with monitors after every step"},
 ]
 
+
+CHECKS.update({
+ "C06": ("E3", "exploration", "runtime monitoring: reference model of the local key-value map stepped in lock-step with the real node, every read compared",
+   "Every sequence of length 4 (quick) / 5 (thorough) over 22 operations (set / set_with_ttl / delete / delete_after_ttl on prefix-related and empty keys, clock advances to grace-1ns / grace, GC) is run on a real node under the virtual clock and every read is compared with a reference versioned map; random sequences to length 40 over a larger alphabet; replica side through real handshakes with the grace counted from receipt (also monitored in every GC step of E1).",
+   "delete / delete_after_ttl on a key that is already a tombstone: the model adopts the observed outcome (observation O-2)", "DESIGN.md §5 C06"),
+ "C07": ("E4", "exploration", "runtime monitoring: boundary-directed size sweeps with every reply measured and re-parsed by an independent decoder",
+   "Real node states (0-40 members, 0-300 keys, values up to 65 KB, five payload entropy classes incl. near-incompressible UTF-8) answer crafted digests; every SYN-ACK / ACK and every budgeted delta (budgets 100..65,507) is measured, parsed by the independent decoder and compared with the sender's state; exact-fit sweeps move the last key byte by byte across the point where it stops fitting, so off-by-one errors in the budget or the length bound show up as 65,508-byte replies.",
+   "own digest leaves >= 100 bytes; zstd is a black box", "DESIGN.md §5 C07"),
+ "C08": ("E4", "exploration", "runtime monitoring: differential round-trip between the real codec and an independent implementation of the documented layout",
+   "(a) messages emitted by real nodes driven into states covering the quantifier: announced length == bytes written, real re-decode == original with nothing left, independent decode == the node's own view, content == sender state; (b) independently encoded messages (all string length classes, raw / compressed / tiny / 65,535-byte / randomly cut blocks, digests to 2,000 entries) decoded by the real decoder and compared; (c) every datagram of every E1 trace goes through the same comparisons.",
+   "strings <= 65,535 bytes, <= 65,535 digest entries", "DESIGN.md §5 C08"),
+ "C09": ("E5", "exploration", "runtime monitoring: generative hostile input with panic capture and invariant monitors after every datagram",
+   "Nodes taken from seeded E1 traces receive sequences of up to 20 datagrams: random bytes, mutated / replayed valid datagrams, structure-aware op streams in arbitrary order with extreme values; decode and processing run under panic capture, then frontier monotonicity and live/dead classification invariants are checked; thorough adds a valgrind memcheck pass over the same workload.",
+   "a hostile sequence introduces at most 40 new short member ids (the property's digest-size assumption)", "DESIGN.md §5 C09"),
+ "C10": ("E6", "exploration", "runtime monitoring: harness-side evidence log vs. live/dead verdicts under the virtual clock",
+   "A real node receives crafted digests with chosen heartbeat values at chosen virtual instants; at every evaluation the completeness deadline phi x max(max_interval, initial_interval) since the last fresh value and the two-usable-observations rule are asserted; dyadic exact-boundary witnesses check the deadline with no margin (+1 ns).",
+   "claims asserted with a 1e-9 relative margin outside the boundary", "DESIGN.md §5 C10"),
+ "C11": ("E6", "exploration", "runtime monitoring: twin-node oracle (fresh values only) and accuracy claims from a shadow of the heartbeat gaps",
+   "A twin node receives the same history with every non-fresh value removed: live/dead/scheduled sets and stored heartbeats must be identical after every evaluation; steady histories must stay live whenever the statement's premise holds (shadow gaps are a superset of the real window); exact-boundary witness at threshold 1; E1 additionally asserts that no member is live before two strictly increasing values.",
+   "heartbeats reach the node through SYN digests (E6) and through whole simulated clusters (E1)", "DESIGN.md §5 C11"),
+ "C14": ("E2", "exploration", "runtime monitoring: exhaustive small-scope enumeration fed to real nodes, verdict on the observed handshake",
+   "All 4,096 (sender watermark, sender max version, receiver watermark, receiver max version) combinations in 0..7 x entry layouts: both copies are installed in real nodes, the receiver's real SYN is answered by the real sender, the answer and every distinct truncation of it are processed by fresh copies of the receiver; start version, reset decision, strict advance, content after a wipe and callback count are asserted; plus the monitored handshakes of seeded E1 traces.",
+   "copies installed through real message processing; exhaustive refers to the frontier cross product", "DESIGN.md §5 C14"),
+ "C15": ("E7", "exploration", "runtime monitoring: recording callbacks vs. expected calls computed from the statement",
+   "Every (prefix, key) pair over all 85 strings of length <= 3 over {a, b, 2-byte, 4-byte character}, alone and inside a companion set of 8 subscriptions with kept / dropped / forever handles, for all four write operations, locally and replicated through real handshakes incl. duplicate and stale deliveries; random sets of up to 8 prefixes.",
+   "callbacks registered through the public subscribe_event", "DESIGN.md §5 C15"),
+ "C17": ("E8", "exploration", "runtime monitoring: the real selection function over an exhaustive subset-structure enumeration with scripted generators",
+   "Every multiset of membership masks for universes of 0..6 addresses (74,613 structures) x scripted generators returning extreme and mid values x seeded draws; each result is checked against all clauses (at most 3 distinct targets from the right pool, picks inside their sets, forced seed when no live peer, forced dead pick when dead > live, no panic).",
+   "sets passed unchanged to the real function through the facade", "DESIGN.md §5 C17"),
+ "C18": ("E9", "exploration", "runtime monitoring: before/after oracle around the public catch-up entry point",
+   "Existing copies of six kinds (absent, empty, mid-reset, behind, ahead, garbage collected through the real dead-node GC) x consistent and arbitrary supplied states; no panic, no lower frontier, unchanged-or-replaced content, no re-creation of removed members, no liveness change; also interleaved with E1 gossip steps using other nodes' real copies.",
+   "absent -> empty copy at (0,0) after a refused call counts as unchanged", "DESIGN.md §5 C18"),
+ "C19": ("E10", "fault_enumeration", "runtime monitoring: scripted transport faults under the paused clock + real UDP on loopback",
+   "One real gossip server on a scripted Transport/Socket: all scripts of length <= 4 (quick) / 6 (thorough) over {send ok, send error, 2.5 s send, recv SYN, recv fatal error, recv panic} x every position of a shutdown request or user lock, plus random scripts to length 12; obligations in virtual time: rounds resume, liveness is evaluated, heartbeat rises, every SYN answered, termination reported, shutdown completes, user access returns within 1 ms; real UDP rounds with garbage / truncated / 65,507-byte datagrams and a closed-port seed.",
+   "virtual-time deadlines; UDP part: missing answer without termination is inconclusive", "DESIGN.md §5 C19"),
+})
+ENGINES.extend([
+ {"name": "E2", "path": "harness/src/pairs.rs", "serves_properties": ["C14", "C04", "C20"], "kind_free_text": "small-scope enumeration of (sender copy, receiver copy) and (copy, delta) pairs on real nodes"},
+ {"name": "E3", "path": "harness/src/kvmodel.rs", "serves_properties": ["C06"], "kind_free_text": "reference model of the local KV map in lock-step with the real node"},
+ {"name": "E4", "path": "harness/src/wire.rs, harness/src/codec.rs", "serves_properties": ["C07", "C08"], "kind_free_text": "MTU / round-trip sweeps against an independent codec"},
+ {"name": "E5", "path": "harness/src/hostile.rs", "serves_properties": ["C09"], "kind_free_text": "hostile datagram generator with panic capture"},
+ {"name": "E6", "path": "harness/src/fd.rs", "serves_properties": ["C10", "C11"], "kind_free_text": "failure-detector timing monitors with a twin node"},
+ {"name": "E7", "path": "harness/src/listeners.rs", "serves_properties": ["C15"], "kind_free_text": "subscription oracle"},
+ {"name": "E8", "path": "harness/src/select.rs", "serves_properties": ["C17"], "kind_free_text": "peer-selection enumeration"},
+ {"name": "E9", "path": "harness/src/catchup.rs", "serves_properties": ["C18"], "kind_free_text": "catch-up oracle"},
+ {"name": "E10", "path": "harness/src/server.rs", "serves_properties": ["C19"], "kind_free_text": "scripted transport + UDP loopback for the gossip server"},
+])
+
 def main():
     props = [json.loads(l)["id"] for l in open("/verif/properties.jsonl")]
     checks = []
